@@ -348,6 +348,10 @@ func (s *Server) checkAndAssignLocked(next jmessages) tasks {
 			t.m = s.assignLocked(t.ctx, t.hreq.method)
 			if t.m == nil {
 				t.err = errNoSuchMethod.WithData(t.hreq.method)
+
+				// This task will never run, so nothing will deliver a result for
+				// it and release the reservation setContext just made for its ID.
+				s.cancelLocked(id)
 			}
 		}
 
